@@ -604,6 +604,11 @@ class WrapperModel(Model):
                 s2.emit('SETERR', (k, C(tok)), line)
                 outs.append(R(s2, None, tok, line))
             self.mark_hashable(k, st)
+            if getattr(self, 'store_fail', False):
+                # the cache may be an archive itself: storing a result that cannot be encoded fails
+                s2 = st.fork()
+                s2.emit('SETERR', (k, C('StoreError')), line)
+                outs.append(R(s2, None, GENERIC, line))
             st.emit('SET', (k, val), line)
             self.set_resident(k, True, st)
             st.facts['size'] = 'nonempty'
